@@ -2,7 +2,7 @@ from __future__ import print_function
 import sys
 from warnings import warn
 from types import MethodType
-from PseudoNetCDF.netcdf import NetCDFVariable
+from PseudoNetCDF.netcdf import NetCDFVariable, NetCDFFile
 from .sci_var import PseudoNetCDFFile
 from .sci_var import get_ncf_object
 import numpy as np
@@ -154,6 +154,16 @@ class Pseudo2NetCDF:
                 # character variables of a netCDF source: 'S' alone would
                 # be a zero-length string type
                 typecode = 'c'
+
+        if (
+            isinstance(pvar, NetCDFVariable) and
+            not isinstance(nfile, NetCDFFile) and
+            any(pk in pvar.ncattrs() for pk in ('scale_factor', 'add_offset'))
+        ):
+            # a packed variable stores another type than it delivers; a
+            # target in memory holds the delivered values
+            one = tuple(slice(0, 1) for _ in pvar.shape)
+            typecode = np.asarray(pvar[one] if one else pvar[...]).dtype.char
 
         create_variable_kwds = self.create_variable_kwds.copy()
         if hasattr(pvar, 'missing_value'):
